@@ -93,8 +93,17 @@ def redeclare(rng, r):
                     p["size"] = E.sym(b)
             return 1
     for n, p in rng.sample(cands, min(len(cands), rng.randint(1, 3))):
-        kind = rng.choice(["const", "repeat", "compound", "compound"])
+        kind = rng.choice(["const", "repeat", "compound", "compound", "param"])
         scope = list(n["input_params"]) + [l[0] for l in n["local_variables"]]
+        if kind == "param":
+            # the declared size is one of the subroutine's own PARAMETERS, bare (input_params: [N], port size: N): the
+            # simplest expression over its parameters there is
+            ps_ = [q for q in n["input_params"] if q not in H.POW_EXPONENTS and q != "dq"]
+            if ps_:
+                p["size"] = E.sym(rng.choice(ps_))
+                k += 1
+                continue
+            kind = "compound"
         others = [q["size"][1] for q in n["ports"] if q is not p and q["direction"] != "output" and q["size"] is not None and q["size"][0] == "s"]
         if kind == "const":
             p["size"] = E.num(rng.randint(0, 3))       # a register declared empty is a declaration like any other
